@@ -208,6 +208,9 @@ def check(ctx):
                    ("CapacityLimiterAdapter.acquire_on_behalf_of", f"await self._limiter.acquire_on_behalf_of($B)"),
                    ("CapacityLimiterAdapter.__aenter__", "await self._limiter.__aenter__()")):
         g = ctx.fn(q, SYNC)
+        if g.qual != q and q.endswith(".__aenter__"):
+            # the override is gone and the base class's `__aenter__` runs: it enters through the class's own acquire(), which is in this table
+            pat = "await self.acquire()"
         dominates_all_exits(ctx, "R08-a", g, pat, f"{q} reaches the checkpointing operation of the real primitive on every path")
         n_ops += 1
     ctx.floor("R08-a", "primitive operations of the table", n_ops, 14)
